@@ -260,7 +260,7 @@ Definition num_text (bits : Z) : option (list Z) :=
   if negb (is_finite bits) then None else
   let q := to_int (fmul bits (of_int 4)) in                (* 4 * value, exact for the class *)
   if negb (feq (of_int q) (fmul bits (of_int 4))) then None else
-  if (Z.abs q >=? 4 * 10 ^ 15) then None else
+  if (Z.abs q >=? 4 * 10 ^ 6) then None else
   let neg := q <? 0 in
   let a := Z.abs q in
   let ip := a / 4 in
